@@ -438,6 +438,7 @@ func sciToME(s string) (*big.Int, int) {
 func main() {
 	cfg := hlib.ParseFlags()
 	s := hlib.NewSuite(cfg, "ryu")
+	defer s.FinishOnPanic()
 	s.Header = "From QF Require Import Base.Prelude Base.CaseLib Model.Ryu Corr.RyuCorr.\nLocal Open Scope N_scope.\n"
 	s.CaseType = "ryu_case"
 	s.CheckFn = "check_ryu"
@@ -525,7 +526,12 @@ func main() {
 	goChecked := 0
 	nilBuf := func(bits uint64, fam string) {
 		f := math.Float64frombits(bits)
-		out := ryuhook.AppendFloat64f(nil, f)
+		var out []byte
+		if p, v := hlib.Recover(func() { out = ryuhook.AppendFloat64f(nil, f) }); p {
+			fail(-1, fmt.Sprintf("AppendFloat64f(nil, %v) panicked: %v", f, v), map[string]interface{}{"kind": "go-only", "family": fam, "bits": fmt.Sprintf("%#016x", bits)})
+			goChecked++
+			return
+		}
 		if msg := goCheck(bits, out); msg != "" {
 			fail(-1, msg, map[string]interface{}{"kind": "go-only", "family": fam, "bits": fmt.Sprintf("%#016x", bits)})
 		}
@@ -558,7 +564,10 @@ func main() {
 		fl = append(fl, 0, math.Copysign(0, -1), math.NaN(), 1, -1, 0.5, 1e21, 123456789, 4294967296, 9999999999, 5551234567)
 		var buf bytes.Buffer
 		qf := qframe.New(map[string]interface{}{"F": fl})
-		if err := qf.ToJSON(&buf); err != nil {
+		var jerr error
+		if p, v := hlib.Recover(func() { jerr = qf.ToJSON(&buf) }); p {
+			fail(-1, fmt.Sprintf("ToJSON of a float column panicked: %v", v), map[string]interface{}{"kind": "to_json-path", "floats": len(fl)})
+		} else if err := jerr; err != nil {
 			fail(-1, "ToJSON of a float column failed: "+err.Error(), map[string]interface{}{"kind": "to_json-path", "floats": len(fl)})
 		} else {
 			recs := bytes.Split(bytes.TrimSuffix(bytes.TrimPrefix(buf.Bytes(), []byte("[")), []byte("]")), []byte("},{"))
@@ -688,7 +697,12 @@ func main() {
 			for j := range sp {
 				sp[j] = byte('0' + (i+j)%10)
 			}
-			res := ryuhook.AppendFloat64f(reuse[:2], f)
+			var res []byte
+			if p, v := hlib.Recover(func() { res = ryuhook.AppendFloat64f(reuse[:2], f) }); p {
+				fail(-1, fmt.Sprintf("AppendFloat64f on a buffer of length 2 and capacity %d panicked for %v: %v", cap(reuse), f, v), map[string]interface{}{"kind": "go-only", "bits": fmt.Sprintf("%#016x", bits)})
+				fails++
+				continue
+			}
 			if len(res) < 2 || res[0] != '[' || res[1] != ',' {
 				fail(-1, "AppendFloat64f changed the bytes already in the buffer", map[string]interface{}{"kind": "go-only", "bits": fmt.Sprintf("%#016x", bits)})
 				fails++
@@ -696,7 +710,11 @@ func main() {
 			}
 			out = res[2:]
 		} else {
-			out = ryuhook.AppendFloat64f(nil, f)
+			if p, v := hlib.Recover(func() { out = ryuhook.AppendFloat64f(nil, f) }); p {
+				fail(-1, fmt.Sprintf("AppendFloat64f(nil, %v) panicked: %v", f, v), map[string]interface{}{"kind": "go-only", "bits": fmt.Sprintf("%#016x", bits)})
+				fails++
+				continue
+			}
 		}
 		if msg := goCheck(bits, out); msg != "" {
 			fail(-1, msg, map[string]interface{}{"kind": "go-only", "family": "bulk", "bits": fmt.Sprintf("%#016x", bits)})
